@@ -36,6 +36,15 @@ func (fx *FuncCtx) call(st *State, x *ssa.Call) (forks []*State, ended bool) {
 			return fx.callStatic(st, x, fn)
 		}
 	}
+	// ghost precondition of a callback: what must hold whenever the code calls it
+	if f.ct != nil {
+		for i := range f.ct.CallReqs[cc.Value.Name()] {
+			c := &f.ct.CallReqs[cc.Value.Name()][i]
+			env := fx.frameEnv(st, f)
+			fx.bindLocals(env, st, f)
+			st.obligeP("callreq", fmt.Sprintf("callback#%s.requires.%s", cc.Value.Name(), c.Name), env.evalBool(c.Expr), f.ct.propsOf(c), x.Pos())
+		}
+	}
 	// call through a function value (callback): uninterpreted, assumed not to modify modelled memory
 	fx.warn("call through function value %s: callback assumed not to modify tape/strings", cc.Value.Name())
 	f.vals[x] = fx.Fresh(x.Type(), "callback")
@@ -505,4 +514,30 @@ func (fx *FuncCtx) extern(st *State, x *ssa.Call, callee *ssa.Function, args []V
 func (st *State) havocArr(base PtrVal) {
 	a := st.baseArr(base)
 	st.Store(base, ArrayVal{Arr: st.fx.FreshSym("hvarr", a.Arr.So), ElemT: a.ElemT, Opaque: a.Opaque})
+}
+
+// mapHas: membership of a key in a map as an uninterpreted predicate of (map identity, key contents):
+// the same map and the same key bytes always give the same answer.
+func (fx *FuncCtx) mapHas(st *State, m MapVal, key Value) Term {
+	var ks string
+	switch k := key.(type) {
+	case StringVal:
+		ks = st.baseArr(k.Base).Arr.S + "|" + k.Off.S + "|" + k.Len.S
+	case SliceVal:
+		ks = st.baseArr(k.Base).Arr.S + "|" + k.Off.S + "|" + k.Len.S
+	case Term:
+		ks = k.S
+	default:
+		return fx.FreshSym("mapok", SBool)
+	}
+	id := fmt.Sprintf("maphas|%d|%s", m.ID, ks)
+	if fx.mapHasSyms == nil {
+		fx.mapHasSyms = map[string]Term{}
+	}
+	if t, ok := fx.mapHasSyms[id]; ok {
+		return t
+	}
+	t := fx.FreshSym("maphas", SBool)
+	fx.mapHasSyms[id] = t
+	return t
 }
